@@ -3,14 +3,14 @@ package main
 // Contract expressions (Go syntax + a few built-ins) -> SMT terms.
 
 import (
-	"sort"
-	"os"
 	"fmt"
 	"go/ast"
 	"go/constant"
 	"go/parser"
 	"go/token"
 	"go/types"
+	"os"
+	"sort"
 	"strconv"
 	"strings"
 
@@ -18,20 +18,20 @@ import (
 )
 
 type cval struct {
-	term string
-	typ  types.Type // nil for ghost sorts
-	sort string     // for ghost values
+	term  string
+	typ   types.Type // nil for ghost sorts
+	sort  string     // for ghost values
 	isNil bool
 }
 
 type exprEnv struct {
-	f    *frame
-	st   *State
-	old  *State
-	vars map[string]cval
-	pkg  *types.Package
-	loop *loopInfo
-	depth int
+	f      *frame
+	st     *State
+	old    *State
+	vars   map[string]cval
+	pkg    *types.Package
+	loop   *loopInfo
+	depth  int
 	qfacts *[]string // well-formedness facts of loads under the innermost quantifier
 }
 
@@ -849,6 +849,41 @@ func (e *exprEnv) call(n *ast.CallExpr) (cval, error) {
 				}
 			}
 			return cval{term: fmt.Sprintf("(> %s %s)", v.term, e.old.alloc), typ: boolT}, nil
+		case "nonnilchan":
+			// nonnilchan(c): every value received from channel c is non-nil (to be assumed on the producer of the channel)
+			v, err := e.expr(n.Args[0])
+			if err != nil {
+				return cval{}, err
+			}
+			return cval{term: fmt.Sprintf("(%s %s)", B.declFun("nonnilchan", []string{"Int"}, "Bool"), v.term), typ: boolT}, nil
+		case "callid":
+			// callid(Callee): the number of a callee listed under `callevents` (first argument of its Called events)
+			id, ok := n.Args[0].(*ast.Ident)
+			if !ok {
+				return cval{}, fmt.Errorf("callid(Callee)")
+			}
+			if e.f.t.fc != nil {
+				for ci, ce := range e.f.t.fc.CallEvents {
+					if ce.Name == id.Name {
+						return cval{term: strconv.Itoa(ci + 1), typ: intT}, nil
+					}
+				}
+			}
+			return cval{}, fmt.Errorf("callid(%s): not listed under callevents", id.Name)
+		case "asptr":
+			// asptr(x, *T): an event argument (an address) read as a pointer of the given type
+			v, err := e.expr(n.Args[0])
+			if err != nil {
+				return cval{}, err
+			}
+			T, err := e.resolveType(n.Args[1])
+			if err != nil {
+				return cval{}, err
+			}
+			if B.sortOf(T) != "Int" {
+				return cval{}, fmt.Errorf("asptr: %s is not a reference type", T)
+			}
+			return cval{term: v.term, typ: T}, nil
 		case "unchanged":
 			// unchanged(T.f) / unchanged(allelems(T)) / unchanged(x.f): objects allocated at function entry keep their content
 			tg, err := e.resolveModifies(types.ExprString(n.Args[0]))
@@ -1400,24 +1435,25 @@ func (e *exprEnv) eventTermX(name string, args []ast.Expr) (string, error) {
 		}
 		as = append(as, v.term)
 	}
-	return "(" + "ev_"+name + " " + strings.Join(as, " ") + ")", nil
+	return "(" + "ev_" + name + " " + strings.Join(as, " ") + ")", nil
 }
 
 // modTarget describes one `modifies` entry.
 type modTarget struct {
-	arr   string
-	desc  arrDesc
-	sort  string
-	obj   string // "" = whole array
-	elem  bool   // element heap: obj is the base
+	arr  string
+	desc arrDesc
+	sort string
+	obj  string // "" = whole array
+	elem bool   // element heap: obj is the base
 }
 
 // resolveModifies compiles a modifies entry to heap targets.
-//   x.f        field f of object x
-//   T.f        field f of every T (T a type name)
-//   elems(s)   elements of the backing array of slice s
-//   *p         cell p
-//   mapof(m)   entries of map m
+//
+//	x.f        field f of object x
+//	T.f        field f of every T (T a type name)
+//	elems(s)   elements of the backing array of slice s
+//	*p         cell p
+//	mapof(m)   entries of map m
 func (e *exprEnv) resolveModifies(m string) ([]modTarget, error) {
 	B := e.B()
 	ex, err := parser.ParseExpr(strings.ReplaceAll(m, "$", "ζ"))
@@ -1591,7 +1627,6 @@ func (t *Trans) modifiesArrays(fc *FuncContract, plan callPlan, m string) (map[s
 
 var _ = ssa.Function{}
 
-
 // callResType finds the static type of a logged call result.
 func (f *frame) callResType(name string, ord, ridx int) types.Type {
 	k := 0
@@ -1601,16 +1636,9 @@ func (f *frame) callResType(name string, ord, ridx int) types.Type {
 			if !ok {
 				continue
 			}
-			n := ""
-			if c.Call.IsInvoke() {
-				n = c.Call.Method.Name()
-			} else if fn := c.Call.StaticCallee(); fn != nil {
-				n = fn.Name()
-			}
-			if n != name {
-				if fn := c.Call.StaticCallee(); fn == nil || fn.Signature.Recv() == nil || !strings.HasSuffix(name, "_"+n) {
-					continue
-				}
+			n, n2 := callSiteNames(&c.Call)
+			if n != name && n2 != name {
+				continue
 			}
 			_ = k
 			if tup, ok := c.Type().(*types.Tuple); ok {
@@ -1624,7 +1652,6 @@ func (f *frame) callResType(name string, ord, ridx int) types.Type {
 	}
 	return nil
 }
-
 
 // selectPatterns finds array reads indexed exactly by the bound variable: (select A qv) with A free of bound variables.
 // They make good E-matching triggers (instantiate only for indices that are actually read).
@@ -1848,7 +1875,6 @@ func withPatterns(body string, pats []string) string {
 	return sb.String()
 }
 
-
 // versionAxiom asserts, for the heap array version a value was just loaded from, that every reference stored in it is
 // allocated (bounded by the allocation counter recorded when the version was created). It is a true invariant of
 // Go memory; it is only emitted for loads that occur under a quantifier of a contract.
@@ -1901,7 +1927,6 @@ func quantBody(facts []string, body string, existential bool) string {
 	return implies(and(fs...), body)
 }
 
-
 // findCall returns the first call instruction to a callee with the given short name.
 func (f *frame) findCall(name string) *ssa.Call {
 	for _, b := range f.fn.Blocks {
@@ -1910,21 +1935,7 @@ func (f *frame) findCall(name string) *ssa.Call {
 			if !ok {
 				continue
 			}
-			n, n2 := "", ""
-			if c.Call.IsInvoke() {
-				n = c.Call.Method.Name()
-			} else if fn := c.Call.StaticCallee(); fn != nil {
-				n = fn.Name()
-				if fn.Signature.Recv() != nil {
-					rt := fn.Signature.Recv().Type()
-					if p, ok := rt.(*types.Pointer); ok {
-						rt = p.Elem()
-					}
-					if nt, ok := rt.(*types.Named); ok {
-						n2 = nt.Obj().Name() + "_" + n
-					}
-				}
-			}
+			n, n2 := callSiteNames(&c.Call)
 			if n == name || n2 == name {
 				return c
 			}
@@ -1940,6 +1951,9 @@ func callSiteNames(c *ssa.CallCommon) (string, string) {
 		n = c.Method.Name()
 	} else if fn := c.StaticCallee(); fn != nil {
 		n = fn.Name()
+		if i := strings.Index(n, "["); i > 0 {
+			n = n[:i] // instance of a generic function: known by the name of the generic
+		}
 		if fn.Signature.Recv() != nil {
 			rt := fn.Signature.Recv().Type()
 			if p, ok := rt.(*types.Pointer); ok {
